@@ -111,6 +111,7 @@ type RunResult struct {
 	StepCap    bool
 	Stuck      bool
 	Hidden     bool
+	HiddenInfo string
 	Unfinished []string
 	Quiescent  bool
 }
@@ -225,6 +226,7 @@ func Execute(t *testing.T, h *Harness, prop, tier string, scn any, seed uint64, 
 		}
 		res.Nontrivial = c.nontrivial
 		res.StepCap, res.Stuck, res.Hidden, res.Quiescent = s.StepCap, s.Stuck, s.HiddenTimer, s.Quiescent
+		res.HiddenInfo = s.HiddenInfo
 		res.Unfinished = s.Unfinished()
 	})
 	return res
@@ -360,7 +362,7 @@ func explore(t *testing.T, h *Harness, job *Job) *Summary {
 			continue
 		case res.Hidden:
 			sum.Inconclusive["unregistered-timer"]++
-			sum.Problems = append(sum.Problems, fmt.Sprintf("run %d: a timer unknown to the scheduler fired after quiescence", i))
+			sum.Problems = append(sum.Problems, fmt.Sprintf("run %d: a timer unknown to the scheduler fired after quiescence, waking %s", i, res.HiddenInfo))
 			continue
 		case res.StepCap:
 			sum.Inconclusive["step-cap"]++
